@@ -587,6 +587,28 @@ class Conv:
             return self.zero
         return Frac(c, self.ring.const(1))
 
+    def convert_grouped(self, pairs):
+        """pairs: [(Fraction coefficient, original DAG node)]; the linear combination is flattened through
+        additions and the addends are summed per denominator signature.  Returns the list of per-group sums
+        (Fracs with pairwise different denominators); their total is the value of the combination."""
+        groups = {}
+        for coef, x in pairs:
+            cx = self.canon(x)
+            for atom, c in lincomb(cx).items():
+                c = c * coef
+                if c == 0:
+                    continue
+                fr = self.const(c) if atom is None else self.f(atom) * self.const(c)
+                if fr.is_zero():
+                    continue
+                sig = frozenset((k, e) for k, (p, e) in fr.d.items())
+                cur = groups.get(sig)
+                groups[sig] = fr if cur is None else cur + fr
+        return [g for g in groups.values() if not g.is_zero()]
+
+    def total(self, groups):
+        return self._sum(list(groups)) if groups else self.zero
+
     def f(self, x):
         if isinstance(x, Fraction):
             return self.const(x)
